@@ -147,7 +147,7 @@ Qed.
 Lemma cond_repr r cv : repr r (VI32 cv) -> (as_i32 r =? 0) = (cv =? 0).
 Proof. intros H. rewrite (as_i32_eqb0 mhost fidx consts). unfold repr in H. rewrite H. reflexivity. Qed.
 
-(** ** the specification's interpreter on the admitted constructs *)
+(** ** the specification's interpreter on the accepted constructs *)
 Notation exec_seq := (exec_seq host cap m).
 Notation exec_instr := (exec_instr host cap m).
 
@@ -673,7 +673,7 @@ Proof.
           destruct (op_br nl cx s v v1 s1 l0 I Hu Ev Eh) as (locs & Enth & O1 & O2 & O3 & O4 & O5 & O6 & I1 & Hu1 & X1).
           rewrite (lvl_unreach_nil nl cx rest v1 Hu1 Hl') in Hc'. cbn in Hc'. inversion Hc'; subst v' s'.
           destruct f as [|f2]; [cbn; exact Logic.I|]. rewrite E_br.
-          eapply sim_br; eauto.
+          exact (sim_br l0 s v v1 s1 rho st l vs M I Hu Ev Eh Hm Hle Hlo R).
         * (* br_if *)
           destruct (op_br_if nl cx s v v1 s1 l0 I Hu Ev Eh) as (p & st0 & locs & Es & Pp & Enth & O1 & O2 & O3 & O4 & O5 & O6 & I1 & Hu1 & X1).
           assert (P2 : pres nl s1 s' v') by (eapply (pres_of rest); eauto; left; exact O6).
@@ -689,13 +689,13 @@ Proof.
              ++ left. exact O6.
              ++ eapply lows_mono; [exact Hlo|apply ext_off; exact X1].
           -- destruct Hcase as (e & Ee & H0 & Re). cbn. exists e, 1%nat, Mx. auto.
-      + eapply (case_block n IH); eauto. lia.
+      + eapply (case_block n IH f bt body rest s v v' s'); eauto; lia.
       + unfold flatten in Hl. cbn [flat_map flatten_instr app lvl ctl_ok] in Hl. discriminate.
-      + eapply (case_if n IH); eauto. lia. }
+      + eapply (case_if n IH f bt thn els rest s v v' s'); eauto; lia. }
   unfold SIM. intros is s v v' s' rho st l vs M Hc Hl I Hu Hr Hm Hle Hlo Sm Co R.
   destruct (span is) as [bs tl] eqn:Esp. destruct (span_spec _ _ _ Esp) as (Eis & Hok & Hcf).
   destruct bs as [|b0 bs0].
-  { cbn in Eis. subst is. apply CF; auto. }
+  { cbn in Eis. subst is. apply (CF fuel Hf tl s v v' s'); auto. }
   assert (Hlast : c_last s = None).
   { destruct Hr as [H|H]; auto. rewrite Eis in H. cbn in H. cbn [forallb] in Hok. rewrite H in Hok. discriminate. }
   set (bs := b0 :: bs0) in *. rewrite Eis in Hc, Hl |- *. rewrite flatten_app, flatten_basics in Hc, Hl.
